@@ -34,11 +34,15 @@ const (
 	c18KindRawGet
 	c18KindCop
 	c18KindBatchGet
-	c18KindMvcc // not batchable: always takes the unary path
+	c18KindMvcc        // not batchable: always takes the unary path
+	c18KindResolveLock // carries no payload to echo: judged against the server's execution log (c18_resolvelock_test.go)
 	c18NKinds
 )
 
-var c18KindName = [...]string{"get", "rawget", "cop", "batchget", "mvcc"}
+// the kinds drawn at random for ordinary calls
+const c18NPlainKinds = c18KindMvcc
+
+var c18KindName = [...]string{"get", "rawget", "cop", "batchget", "mvcc", "resolvelock"}
 
 // what the server does with a call (fixed by the call's plan, not by timing)
 const (
@@ -55,6 +59,7 @@ type c18Item struct {
 	kind      int
 	key       []byte
 	call      *c18Call
+	exec      *c18RLExec // ResolveLock: the execution record, stamped when the answer goes out
 	notBefore time.Time
 }
 
@@ -206,6 +211,8 @@ func c18ReqKey(r *tikvpb.BatchCommandsRequest_Request) (int, []byte) {
 			return c18KindBatchGet, ks[0]
 		}
 		return c18KindBatchGet, nil
+	case *tikvpb.BatchCommandsRequest_Request_ResolveLock:
+		return c18KindResolveLock, nil
 	}
 	return -1, nil
 }
@@ -219,6 +226,8 @@ func c18BatchResp(kind int, key []byte) *tikvpb.BatchCommandsResponse_Response {
 		return &tikvpb.BatchCommandsResponse_Response{Cmd: &tikvpb.BatchCommandsResponse_Response_RawGet{RawGet: &kvrpcpb.RawGetResponse{Value: k}}}
 	case c18KindCop:
 		return &tikvpb.BatchCommandsResponse_Response{Cmd: &tikvpb.BatchCommandsResponse_Response_Coprocessor{Coprocessor: &coprocessor.Response{Data: k}}}
+	case c18KindResolveLock:
+		return &tikvpb.BatchCommandsResponse_Response{Cmd: &tikvpb.BatchCommandsResponse_Response_ResolveLock{ResolveLock: &kvrpcpb.ResolveLockResponse{}}}
 	case c18KindBatchGet:
 		return &tikvpb.BatchCommandsResponse_Response{Cmd: &tikvpb.BatchCommandsResponse_Response_BatchGet{BatchGet: &kvrpcpb.BatchGetResponse{Pairs: []*kvrpcpb.KvPair{{Key: k, Value: k}}}}}
 	}
@@ -237,6 +246,9 @@ func (st *c18Stream) sendLocked(s *c18Server, items []c18Item, rng *rand.Rand) {
 			it.call.ansStream.Store(st.id)
 			it.call.ansSeq.Store(st.msgSeq)
 			it.call.srvAnswered.Add(1)
+		}
+		if it.exec != nil {
+			it.exec.ansSeq.Store(s.run.seq.Add(1))
 		}
 		resp.RequestIds = append(resp.RequestIds, it.reqID)
 		resp.Responses = append(resp.Responses, c18BatchResp(it.kind, it.key))
@@ -345,6 +357,9 @@ func (s *c18Server) BatchCommands(ss tikvpb.Tikv_BatchCommandsServer) error {
 			}
 			kind, key := c18ReqKey(reqs[i])
 			it := c18Item{reqID: id, kind: kind, key: key}
+			if kind == c18KindResolveLock {
+				it.exec = s.run.rlExecuted(reqs[i].GetResolveLock())
+			}
 			if c := s.run.lookup(key); c != nil {
 				it.call = c
 				c.srvRecv.Add(1)
@@ -488,4 +503,13 @@ func (s *c18Server) MvccGetByKey(ctx context.Context, req *kvrpcpb.MvccGetByKeyR
 		return nil, err
 	}
 	return &kvrpcpb.MvccGetByKeyResponse{Error: string(req.GetKey())}, nil
+}
+
+func (s *c18Server) KvResolveLock(ctx context.Context, req *kvrpcpb.ResolveLockRequest) (*kvrpcpb.ResolveLockResponse, error) {
+	s.run.count("srv_unary", 1)
+	total := s.totalRecv.Add(1)
+	defer s.maybeRestart(total)
+	ex := s.run.rlExecuted(req)
+	ex.ansSeq.Store(s.run.seq.Add(1))
+	return &kvrpcpb.ResolveLockResponse{}, nil
 }
